@@ -313,6 +313,20 @@ theorem cubic_generator_is_jw (w0 w1 w2 : GQ) :
   mat_unfold
   mat_entries
 
+/-- Quartic gate, general weights: `qubit_generator_matrix` (`w0|1001⟩⟨0110| + w1|1010⟩⟨0101| + w2|1100⟩⟨0011| + h.c.`)
+is the Jordan–Wigner image (through the Spec, four modes) of `w0·G₀ + w1·G₁ + w2·G₂ + h.c.` for the
+`fermion_generator_components` extracted from the live source; the three two-level blocks act on disjoint index
+pairs, so the gate is the product of the three rotations of `quartic` (Model; checked against cirq at 1e-9). -/
+theorem quartic_generator_is_jw (w0 w1 w2 : GQ) :
+    let half := Mat.add (Mat.add (Mat.smul w0 (opMat4 (OFV.Generated.C14.quarticComponents.getD 0 [])))
+      (Mat.smul w1 (opMat4 (OFV.Generated.C14.quarticComponents.getD 1 []))))
+      (Mat.smul w2 (opMat4 (OFV.Generated.C14.quarticComponents.getD 2 [])))
+    quarticGenerator w0 w1 w2 = Mat.add half (Mat.dagger half) := by
+  rw [quarticComp0, quarticComp1, quarticComp2, quarticGenerator_lit]
+  unfold e9_6 e10_5 e12_3
+  mat_unfold
+  mat_entries
+
 /-- Eigen-structure of the cubic gate for general weights, without eigenvalues: the 3×3 block `M` that
 `_eigen_components` hands to `numpy.linalg.eigh` is Hermitian and satisfies its characteristic equation
 `M³ = (|w0|²+|w1|²+|w2|²)·M + 2Re(w0 w̄1 w2)·1`, so `exp(−itM)` is a polynomial of degree ≤ 2 in `M` with
